@@ -111,7 +111,17 @@ def main():
     return rc
 
 
+def _watchdog(signum, frame):
+    import faulthandler
+    sys.stderr.write("check timed out (harness watchdog)\n")
+    faulthandler.dump_traceback(file=sys.stderr)
+    os._exit(2)
+
+
 if __name__ == "__main__":
+    import signal
+    signal.signal(signal.SIGALRM, _watchdog)
+    signal.alarm(int(os.environ.get("VERIF_TIMEOUT", "900" if os.environ.get("VERIF_TIER", "quick") != "thorough" and "thorough" not in sys.argv else "5400")))
     try:
         sys.exit(main())
     except SystemExit:
